@@ -2,8 +2,8 @@
    driver) -> one output line.  All canonical printing is done here, in Coq, so that the OCaml
    side is a trivial read/print loop. *)
 From VF Require Import Base.Prelude Model.Reader Model.InfoModelDefs.
-From VF Require Import Base.IPText Model.Layout Model.JsonPieces Model.Nf5 Model.Flow Model.Cache Model.Ipfix Model.Nf9 Model.MarshalFlow Base.Json Model.Packet Model.Sflow Model.CacheFile.
-From VF Require Gen.InfoModel Gen.Layouts Gen.JsonPieces.
+From VF Require Import Base.IPText Model.Layout Model.JsonPieces Model.Nf5 Model.Flow Model.Cache Model.Ipfix Model.Nf9 Model.MarshalFlow Base.Json Model.Packet Model.Sflow Model.CacheFile Model.Options.
+From VF Require Gen.InfoModel Gen.Layouts Gen.JsonPieces Gen.Options.
 
 Inductive tok := TBytes (b : bytes) | TInt (z : Z) | TSym (s : bytes).
 
@@ -320,6 +320,29 @@ Definition cmd_cachert (args : list tok) : bytes :=
   | _ => s2l "BADARGS"
   end.
 
+(* ---------- options (C17) ---------- *)
+(* options D <field> <x val>... E <field> <x val>... F <field> <x val>... C <flag> <x val>...
+   -> <field>=<x val>;... for every registered field, in registration order *)
+Fixpoint str_of (l : bytes) : string :=
+  match l with [] => EmptyString | c :: t => String (ascii_of_N (Z.to_N c)) (str_of t) end.
+Fixpoint parse_kv (ts : list tok) : list (string * bytes) :=
+  match ts with
+  | TSym k :: TBytes v :: rest => (str_of k, v) :: parse_kv rest
+  | _ => []
+  end.
+Definition kv_get (l : list (string * bytes)) (k : string) : option bytes :=
+  match find (fun x => String.eqb k (fst x)) l with Some x => Some (snd x) | None => None end.
+Definition cmd_options (args : list tok) : bytes :=
+  let '(_, r0) := split_at_sym "D" args in
+  let '(d, r1) := split_at_sym "E" r0 in
+  let '(e, r2) := split_at_sym "F" r1 in
+  let '(f, c) := split_at_sym "C" r2 in
+  let dl := parse_kv d in
+  let s := {| src_default := fun k => match kv_get dl k with Some v => v | None => [] end;
+              src_env := kv_get (parse_kv e); src_file := kv_get (parse_kv f); src_cli := kv_get (parse_kv c) |} in
+  let final := eval Gen.Options.stages s in
+  intercalate (s2l ";") (map (fun p => s2l (snd p) ++ s2l "=" ++ show_bytes (final (snd p))) (reg_pairs Gen.Options.stages)).
+
 Definition dispatch (cmd : bytes) (args : list tok) : bytes :=
   if list_eqb cmd (s2l "reader") then cmd_reader args
   else if list_eqb cmd (s2l "infomodel") then cmd_infomodel args
@@ -331,5 +354,6 @@ Definition dispatch (cmd : bytes) (args : list tok) : bytes :=
   else if list_eqb cmd (s2l "cachedoc") then cmd_cachedoc args
   else if list_eqb cmd (s2l "cachert") then cmd_cachert args
   else if list_eqb cmd (s2l "cachebytes") then s2l "SKIP"
+  else if list_eqb cmd (s2l "options") then cmd_options args
   else if list_eqb cmd (s2l "nf9h-abs") then cmd_nf9h_abs args
   else s2l "UNKNOWN-COMMAND".
